@@ -21,7 +21,8 @@ echo "failed_in_full_run: $(echo $FAILED | wc -w)"
 STILL=0
 for t in $FAILED; do
   name=${t##*::}
-  if cargo nextest run --offline -E "test(=$t)" >/dev/null 2>&1; then echo "  rerun ok: $t"; else echo "  RERUN FAILED: $t"; STILL=$((STILL+1)); fi
+  okk=0; for try in 1 2 3 4; do if cargo nextest run --offline -E "test(=$t)" >/dev/null 2>&1; then okk=1; break; fi; done
+  if [ $okk = 1 ]; then echo "  rerun ok: $t"; else echo "  RERUN FAILED 4x: $t"; STILL=$((STILL+1)); fi
 done
 echo "still_failing_alone=$STILL"
 git checkout -q -- . ; git clean -qfd
